@@ -527,7 +527,21 @@ def _cmp_results(a, b):
             if not (fx.all() and fy.all()):
                 # non-finite results (a calculation that overflows, e.g. made under non-internal
                 # units) are compared position by position: same pattern and equal finite part
-                if (fx == fy).all() and numpy.allclose(x[fx], y[fy], rtol=1e-9, atol=0):
+                # ... the finite part relative to the size of the result AT THAT TIME (first
+                # index): an overflowing calculation grows by hundreds of orders of magnitude
+                # along the time axis, and rounding-level differences of the inputs (a basis
+                # round trip of the Hamiltonian) stay at rounding level relative to that size only
+                ok = bool((fx == fy).all())
+                if ok:
+                    for t in range(x.shape[0]):
+                        m = fx[t]
+                        if not m.any():
+                            continue
+                        sc = float(numpy.max(numpy.abs(y[t][m])))
+                        if float(numpy.max(numpy.abs(x[t][m] - y[t][m]))) > 1e-9 * max(sc, 1e-300):
+                            ok = False
+                            break
+                if ok:
                     continue
                 bad.append((k, float("inf")))
                 continue
